@@ -227,6 +227,8 @@ def run(ctx):
     for b in badl:
         ctx.finding("letterprobe:%d:%s" % (b["group"], b["letter"]), "probe crystal for %d %s: %s" % (b["group"], b["letter"], b["what"]),
                     {"kind": "failing-input", "case": b})
+    import analyzer_hist
+    analyzer_hist.check(ctx, "C14", broken)
     if broken and not ctx.findings:
         ctx.finding("unproved", "proof/translator broken but no failing table entry or crystal found",
                     {"kind": "broken-obligation", "broken": broken}, found_input=False)
